@@ -135,6 +135,10 @@ func (w *Worker) intrinsicEntryEnv(s *State, name string, fn *ssa.Function, args
 			throwRT("invalid memory address or nil pointer dereference (Exit called on a nil *SentinelEntry)")
 		}
 		bump("exits")
+		if k := fmt.Sprintf("exited/%d", args[0].(Ptr).id); s.ghost[k] == nil {
+			s.ghost[k] = true
+			bump("exitedEntries") // distinct entries that have been exited at least once
+		}
 		if sl, ok := args[1].(SliceV); ok && sl.len > 0 {
 			bump("traces") // Exit(WithError(err)) records the error as TraceError does
 		}
